@@ -11,8 +11,8 @@ TARGETS = ["vexec"]
 SHARDS = {"quick": 8, "thorough": 16}
 RULE = ("an on-shell point (tan(beta) in [2,60], either sign of mu, M1, M2, slepton masses in [100,3000]) is evaluated with "
         "calculate_masses(); its spectrum (chargino, neutralino + NMIX, smuon + SMUMIX, sneutrino, MA) becomes the pole input "
-        "of a fresh model whose mu, M1, M2, ml2(2,2), me2(2,2) guesses are perturbed by up to 5 %; convert_to_onshell(p, 1000) "
-        "with p in 10^U(-10,-4). Non-trivial = warning-free conversion in which the right-like smuon is the heavier state or "
+        "of a fresh model whose mu, M1, M2, ml2(2,2), me2(2,2) guesses are perturbed by up to 5 %; convert_to_onshell(p, n) "
+        "with p in 10^U(-10,-4), n = 1000 (half of the cases) or 1..200 (root-finder fallback, non-convergence flags). Non-trivial = warning-free conversion in which the right-like smuon is the heavier state or "
         "the bino-like neutralino is not the lightest; distinct = distinct (point, perturbation, precision).")
 ASSUMPTIONS = [
     "bino-like neutralino = state with the largest |N_i1|; right-like smuon = state with the larger |Z_i2| (as documented)",
@@ -30,10 +30,13 @@ def case_gen(draw):
     p = draw(gen.mssm_onshell(tb=(2.0, 60.0), mino=(100.0, 3000.0), slep=(100.0, 3000.0), vary_sm=False))
     pert = {k: 1.0 + draw(st.floats(-0.05, 0.05)) for k in ("Mu", "MassB", "MassWB", "ml2", "me2")}
     prec = 10.0 ** draw(st.floats(-10.0, -4.0))
-    return {"p": p, "pert": pert, "prec": prec}
+    # few iterations make the fixed-point iteration for me2 stop short, so that the root-finder fallback (and, below
+    # ~10 iterations, the non-convergence flags) are exercised as well
+    maxit = draw(st.sampled_from([1000, 1000, 1000, 200, 50, 20, 12, 8, 5, 3, 2, 1]))
+    return {"p": p, "pert": pert, "prec": prec, "maxit": maxit}
 
 
-def second_model_tokens(p, r1, pert, prec):
+def second_model_tokens(p, r1, pert, prec, maxit=1000):
     q = dict(p)
     q["Mu"] = p["Mu"] * pert["Mu"]
     q["MassB"] = p["MassB"] * pert["MassB"]
@@ -50,7 +53,7 @@ def second_model_tokens(p, r1, pert, prec):
         for j in range(2):
             t += ["physm", "ZM", i, j, r1["ph.ZM.%d.%d" % (i, j)], 0.0]
     t += ["phys", "MSvmL", r1["ph.MSvmL"]]
-    t += ["convert", prec, 1000, "dump", "all", "f.", "dump", "amu", "f.", "dump", "helpers", "f.",
+    t += ["convert", prec, maxit, "dump", "all", "f.", "dump", "amu", "f.", "dump", "helpers", "f.",
           "set", "me2", 1, 1, q["me2"][1], "dump", "amu", "g."]
     return t, q
 
@@ -64,7 +67,7 @@ def prop(case):
     if mssm.threw(r1) or r1["have_problem"]:
         discard("base-point-rejected")
         return None
-    toks, q = second_model_tokens(p, r1, pert, prec)
+    toks, q = second_model_tokens(p, r1, pert, prec, case.get("maxit", 1000))
     r = vx.shared().call(*toks)
     if isinstance(r, (vx.Died, vx.Err)):
         return Fail("executor failure in conversion", result=repr(r))
@@ -74,7 +77,13 @@ def prop(case):
             return None
         return Fail("conversion threw an undocumented exception", exc=r.get("exc"), msg=r.get("excmsg"))
     warn = r["f.no_conv_Mu"] or r["f.no_conv_me2"]
+    # the warning record itself: flagged <=> an achieved accuracy worse than the goal is on record
+    for k in ("Mu", "me2"):
+        flagged, acc = r["f.no_conv_" + k], r.get("f.no_conv_%s.precision" % k)
+        if acc is not None and (flagged and not acc > prec or not flagged and acc != 0.0):
+            return Fail("non-convergence record inconsistent with its flag", which=k, flagged=flagged, achieved=acc, goal=prec)
     if warn:
+        label("warned:" + ("Mu" if r["f.no_conv_Mu"] else "") + ("+me2" if r["f.no_conv_me2"] else ""))
         discard("non-convergence-warning")
         return None
     bad = []
@@ -157,8 +166,8 @@ def known_match(entry, case, fail):
 
 
 def subchecks(ctx):
-    return [Sub("convert", case_gen(), prop, {"quick": 250, "thorough": 8000},
+    return [Sub("convert", case_gen(), prop, {"quick": 800, "thorough": 8000},
                 nontrivial=lambda c: True,
-                classes=lambda c: ["prec:1e%d" % int(math.floor(math.log10(c["prec"])))],
+                classes=lambda c: ["prec:1e%d" % int(math.floor(math.log10(c["prec"]))), "maxit:%d" % c.get("maxit", 1000)],
                 known_match=known_match,
                 rule="on-shell point -> pole spectrum -> perturbed guesses -> convert_to_onshell -> residuals and recovery")]
